@@ -12,4 +12,5 @@ CONSTANTS
   CallbackOwnOnly = FALSE
   RemoveCancels = FALSE
   CycleSkipsLocked = FALSE
+  OfferSkipsLocked = FALSE
 CHECK_DEADLOCK FALSE
